@@ -47,11 +47,6 @@ func TestC21(t *testing.T) {
 	c21R2(r)
 }
 
-type parsed struct {
-	name string
-	res  parser.Result
-}
-
 func parseOnce(name, src string) (parser.Result, error) {
 	h := reporter.NewHandler(nil)
 	fn, err := parser.Parse(name, strings.NewReader(src), h)
@@ -626,7 +621,7 @@ func c21Rejected(r *vlib.Run, id string, m *gen.Model) {
 			r.Violation("c21.lenient-drops-rejected-statement", mu.ID(), mid, w)
 			continue
 		}
-		r.Class(fmt.Sprintf("m:%s: kept verbatim (%d of %d statements left)", mu.ID(), len(after), len(beforeStmts)))
+		r.Class(fmt.Sprintf("m:%s/%s: kept verbatim (%d of %d statements left)", strings.SplitN(mu.Class, ":", 2)[0], mu.Form, len(after), len(beforeStmts)))
 		// observed only (the property states statement-level atomicity for unlinked interpretation): does the
 		// rejected statement leave a partial effect behind in lenient mode?
 		refText := probeSource(src[name], syntax, pkg, withEnumExt, mu.Good)
@@ -642,10 +637,10 @@ func c21Rejected(r *vlib.Run, id string, m *gen.Model) {
 					}
 					return nil
 				}
-				if proto.Equal(probeOpts(lL.FileDescriptorProto()), probeOpts(lR.FileDescriptorProto())) {
+				if bytes.Equal(gen.DetBytes(probeOpts(lL.FileDescriptorProto())), gen.DetBytes(probeOpts(lR.FileDescriptorProto()))) {
 					r.Class("m:lenient leaves no partial effect of the rejected statement (observed)")
 				} else {
-					r.Class("m:" + mu.ID() + ": lenient leaves a PARTIAL EFFECT of the rejected statement (observed, not decided)")
+					r.Class("m:lenient leaves a PARTIAL EFFECT of the rejected statement (observed, not decided): " + strings.SplitN(mu.Class, ":", 2)[0] + "/" + mu.Form)
 				}
 			}
 		}
